@@ -1,5 +1,7 @@
 import Model.Name
 import Proofs.NameText
+import Proofs.NameWire
+import Proofs.NameCompress
 /-!
 # C01 — Name text and wire codecs are exact inverses within DNS length limits
 
@@ -102,5 +104,338 @@ example : WfName [[46, 34, 92, 64, 36, 0, 255], [97], []] ∧ OctetsOk [[46, 34,
   constructor
   · refine ⟨?_, ?_, ?_⟩ <;> decide
   · unfold OctetsOk; decide
+
+
+/-- Uncompressed wire round trip at any offset inside any surrounding bytes: byte-identical labels
+and exactly the encoded length consumed. -/
+theorem fromWire_toWire (n : Name) (h : WfName n) (ha : isAbs n = true) (pre post : Bytes) :
+    fromWire (pre ++ toWire n ++ post) pre.length = .ok (n, (toWire n).length) := by
+  obtain ⟨ls, hn, hp⟩ := abs_split n h ha
+  have hd := Dec_plain ls hp pre post pre.length
+  have hrun := fromWireAux_of_Dec hd pre.length []
+  unfold fromWire
+  have hlen : ¬ pre.length > (pre ++ toWire n ++ post).length := by simp
+  simp only [hlen, if_false]
+  rw [hn, hrun]
+  simp only [List.nil_append]
+  rw [← hn, validate_of_wf n h]
+  simp
+
+/-- Wire decoding is closed: whatever octets are presented at whatever offset, a returned name is
+well formed (labels ≤ 63, total ≤ 255), absolute, and the octets consumed lie inside the buffer. -/
+theorem fromWire_wf (b : Bytes) (off : Nat) (n : Name) (k : Nat) (h : fromWire b off = .ok (n, k)) :
+    WfName n ∧ isAbs n = true ∧ off + k ≤ b.length := by
+  unfold fromWire at h
+  split at h
+  · simp at h
+  · rename_i hoff
+    split at h
+    · simp at h
+    · rename_i n' f' hrun
+      split at h
+      · simp at h
+      · rename_i n'' hv
+        simp at h
+        obtain ⟨rfl, rfl⟩ := h
+        obtain ⟨heq, hwf⟩ := wf_of_validate n' n'' hv
+        obtain ⟨⟨m, hm⟩, hf⟩ := fwAux_shape b b.length off off off [] n' f' hrun
+        obtain ⟨ls, fwd, hd, _, hf'⟩ := Dec_of_fromWireAux b off off off [] n' f' hrun
+        have := hd.fwd_le
+        refine ⟨heq ▸ hwf, ?_, by omega⟩
+        rw [heq, hm]
+        simp [isAbs]
+
+/-- Decoding terminates (the definition of `fromWireAux` is accepted by Lean's termination checker
+on the measure (biggest_pointer, bytes left)) and only follows pointers to strictly earlier offsets:
+every successful decode is a derivation of `Dec`, whose pointer rule demands `target < bound`, the
+bound starting at the name's own offset and being lowered to each target followed. -/
+theorem fromWire_backward (b : Bytes) (off : Nat) (n : Name) (k : Nat) (h : fromWire b off = .ok (n, k)) :
+    ∃ ls fwd, Dec b off off ls fwd ∧ n = ls ++ [[]] ∧ k = fwd - off := by
+  unfold fromWire at h
+  split at h
+  · simp at h
+  · split at h
+    · simp at h
+    · rename_i n' f' hrun
+      split at h
+      · simp at h
+      · rename_i n'' hv
+        simp at h
+        obtain ⟨rfl, rfl⟩ := h
+        obtain ⟨heq, _⟩ := wf_of_validate n' n'' hv
+        obtain ⟨ls, fwd, hd, hn, hf'⟩ := Dec_of_fromWireAux b off off off [] n' f' hrun
+        have := hd.fwd_le
+        refine ⟨ls, fwd, hd, by rw [heq, hn]; simp, by omega⟩
+
+/-- and conversely every `Dec` derivation whose name passes the length checks is what `from_wire` returns -/
+theorem fromWire_of_Dec (b : Bytes) (off : Nat) (ls : List Label) (fwd : Nat) (hd : Dec b off off ls fwd)
+    (hw : WfName (ls ++ [[]])) : fromWire b off = .ok (ls ++ [[]], fwd - off) := by
+  have := hd.fwd_le
+  unfold fromWire
+  have : ¬ off > b.length := by omega
+  simp only [this, if_false]
+  rw [fromWireAux_of_Dec hd off []]
+  simp only [List.nil_append]
+  rw [validate_of_wf _ hw]
+  have : max off fwd = fwd := by omega
+  simp [this]
+
+
+/-- equality of names up to ASCII case (the library's `Name.__eq__`) -/
+def lowEq (a b : Name) : Prop := lowerName a = lowerName b
+
+theorem wf_of_lowEq (a b : Name) (h : lowerName a = lowerName b) (hb : WfName b) : WfName a := by
+  have hlen : a.map List.length = b.map List.length := by
+    have := congrArg (List.map List.length) h
+    simpa [lowerName, lowerLabel, List.map_map, Function.comp_def] using this
+  obtain ⟨h1, h2, h3⟩ := hb
+  have hwl : wireLen a = wireLen b := by
+    have : a.map (fun l => l.length + 1) = b.map (fun l => l.length + 1) := by
+      have := congrArg (List.map (· + 1)) hlen
+      simpa [List.map_map, Function.comp_def] using this
+    simp [wireLen, this]
+  refine ⟨?_, by omega, ?_⟩
+  · intro l hl
+    obtain ⟨i, hi, rfl⟩ := List.getElem_of_mem hl
+    have hib : i < b.length := by have := congrArg List.length hlen; simp at this; omega
+    have : a[i].length = b[i].length := by
+      have := congrArg (fun x => x[i]?) hlen
+      simp [hi, hib] at this
+      exact this
+    rw [this]; exact h1 _ (List.getElem_mem hib)
+  · intro l hl hnil
+    subst hnil
+    obtain ⟨i, hi⟩ := List.getElem?_of_mem hl
+    rw [List.getElem?_dropLast] at hi
+    split at hi
+    · rename_i hlt
+      have hia : i < a.length := by omega
+      have hlenab : a.length = b.length := by have := congrArg List.length hlen; simpa using this
+      have hib : i < b.length := by omega
+      have hbi : b[i].length = 0 := by
+        have := congrArg (fun x => x[i]?) hlen
+        simp [hia, hib] at this
+        rw [← this]
+        rw [List.getElem?_eq_getElem hia] at hi
+        simp at hi
+        simp [hi]
+      have : b[i] ∈ b.dropLast := by
+        apply List.mem_of_getElem? (i := i)
+        rw [List.getElem?_dropLast]; simp [hib]; omega
+      exact h3 _ this (List.length_eq_zero_iff.mp hbi)
+    · simp at hi
+
+/-- Compressed encoding is sound, whatever the table and whatever the offset (including beyond 0x3FFF):
+given a table every entry of which decodes (in the output so far) to its key up to ASCII case, rendering an
+absolute name `n` with compression (i) only appends to the output, (ii) only appends to the table and
+keeps every entry sound in the new output, so no pointer ever targets anything but an earlier occurrence of
+that suffix, and (iii) decoding at the start offset consumes exactly the octets written and yields `n`
+up to ASCII case (reading of DESIGN §6: the table is looked up with the library's case-insensitive equality). -/
+theorem toWireC_sound (out : Bytes) (tbl : CTable) (n : Name) (h : WfName n) (ha : isAbs n = true)
+    (hs : TableSound lowEq out tbl) :
+    ∃ ext new, toWireC out tbl n none = .ok (out ++ ext, tbl ++ new) ∧
+      TableSound lowEq (out ++ ext) (tbl ++ new) ∧
+      ∃ m, fromWire (out ++ ext) out.length = .ok (m, ext.length) ∧ lowerName m = lowerName n := by
+  obtain ⟨ls0, hn, hp⟩ := abs_split n h ha
+  have hplain : PlainLabels n.dropLast := by rw [hn]; simpa using hp
+  have hlast : n.getLast? = some [] := by rw [hn]; simp
+  have hhit : ∀ p ∈ tbl, ∀ k, lowerName p.1 = lowerName (n.drop k) → ∀ m, lowEq m p.1 → lowEq m (n.drop k) := by
+    intro p _ k hk m hm; exact hm.trans hk
+  obtain ⟨ext, new, h1, h2, h3, h4⟩ := loop_sound lowEq
+    (by intro l a b hab; simp [lowEq, lowerName] at hab ⊢; exact hab) rfl out tbl hs n hplain hlast hhit
+    out [] ⟨[], by simp⟩ (by simp)
+  simp only [List.append_nil] at h1 h2
+  refine ⟨ext, new, ?_, ?_, ?_⟩
+  · simp only [toWireC, ha, if_true]
+    rw [← h1, ← h2]
+  · intro p hp
+    rcases List.mem_append.mp hp with hp | hp
+    · exact (hs p hp).mono ext
+    · exact (h4 p hp).2
+  · obtain ⟨ls, hd, hr⟩ := h3 out.length (Nat.le_refl _)
+    have hw : WfName (ls ++ [[]]) := wf_of_lowEq _ _ hr h
+    have := fromWire_of_Dec (out ++ ext) out.length ls _ hd hw
+    refine ⟨ls ++ [[]], ?_, hr⟩
+    rw [this]; simp
+
+/-- no table entry equals a suffix of `n` only up to ASCII case -/
+def CaseConsistent (tbl : CTable) (n : Name) : Prop :=
+  ∀ p ∈ tbl, ∀ k, lowerName p.1 = lowerName (n.drop k) → p.1 = n.drop k
+
+/-- … and byte-identical whenever the table is case-consistent with the name and itself exact:
+the compressed round trip then restores exactly `n`, and the table stays exact. -/
+theorem toWireC_exact (out : Bytes) (tbl : CTable) (n : Name) (h : WfName n) (ha : isAbs n = true)
+    (hs : TableSound Eq out tbl) (hc : CaseConsistent tbl n) :
+    ∃ ext new, toWireC out tbl n none = .ok (out ++ ext, tbl ++ new) ∧
+      TableSound Eq (out ++ ext) (tbl ++ new) ∧
+      fromWire (out ++ ext) out.length = .ok (n, ext.length) := by
+  obtain ⟨ls0, hn, hp⟩ := abs_split n h ha
+  have hplain : PlainLabels n.dropLast := by rw [hn]; simpa using hp
+  have hlast : n.getLast? = some [] := by rw [hn]; simp
+  have hhit : ∀ p ∈ tbl, ∀ k, lowerName p.1 = lowerName (n.drop k) → ∀ m, m = p.1 → m = n.drop k := by
+    intro p hp k hk m hm; rw [hm]; exact hc p hp k hk
+  obtain ⟨ext, new, h1, h2, h3, h4⟩ := loop_sound Eq
+    (by intro l a b hab; rw [hab]) rfl out tbl hs n hplain hlast hhit
+    out [] ⟨[], by simp⟩ (by simp)
+  simp only [List.append_nil] at h1 h2
+  refine ⟨ext, new, ?_, ?_, ?_⟩
+  · simp only [toWireC, ha, if_true]
+    rw [← h1, ← h2]
+  · intro p hp
+    rcases List.mem_append.mp hp with hp | hp
+    · exact (hs p hp).mono ext
+    · exact (h4 p hp).2
+  · obtain ⟨ls, hd, hr⟩ := h3 out.length (Nat.le_refl _)
+    have hw : WfName (ls ++ [[]]) := by rw [hr]; exact h
+    have := fromWire_of_Dec (out ++ ext) out.length ls _ hd hw
+    rw [this, hr]; simp
+
+/-- non-vacuity: the empty table is sound in any buffer, and case-consistent with any name -/
+example (out : Bytes) (n : Name) : TableSound Eq out [] ∧ TableSound lowEq out [] ∧ CaseConsistent [] n := by
+  refine ⟨?_, ?_, ?_⟩ <;> intro p hp <;> simp at hp
+
+
+/-! ### closure: no operation that produces a name yields an over-long label or name -/
+
+theorem validate_closed {n r : Name} (h : validate n = .ok r) : WfName r := by
+  obtain ⟨rfl, hw⟩ := wf_of_validate n r h; exact hw
+
+theorem concatenate_closed (a b r : Name) (h : concatenate a b = .ok r) : WfName r := by
+  unfold concatenate at h; split at h
+  · simp at h
+  · exact validate_closed h
+
+theorem relativize_closed (n o r : Name) (hn : WfName n) (h : relativize n o = .ok r) : WfName r := by
+  unfold relativize at h; split at h
+  · exact validate_closed h
+  · simp at h; exact h ▸ hn
+
+theorem derelativize_closed (n o r : Name) (hn : WfName n) (h : derelativize n o = .ok r) : WfName r := by
+  unfold derelativize at h; split at h
+  · exact concatenate_closed _ _ _ h
+  · simp at h; exact h ▸ hn
+
+theorem parent_closed (n r : Name) (h : parent n = .ok r) : WfName r := by
+  unfold parent at h; split at h
+  · simp at h
+  · exact validate_closed h
+
+theorem split_closed (n : Name) (d : Nat) (a b : Name) (hn : WfName n) (h : split n d = .ok (a, b)) :
+    WfName a ∧ WfName b := by
+  have hempty : WfName [] := by refine ⟨?_, ?_, ?_⟩ <;> simp [wireLen]
+  unfold split at h
+  simp only at h
+  split at h
+  · simp at h; obtain ⟨rfl, rfl⟩ := h; exact ⟨hn, hempty⟩
+  · split at h
+    · simp at h; obtain ⟨rfl, rfl⟩ := h; exact ⟨hempty, hn⟩
+    · split at h
+      · simp at h
+      · cases h1 : validate (n.take (n.length - d)) with
+        | error e => simp [h1, bind, Except.bind] at h
+        | ok x =>
+          cases h2 : validate (n.drop (n.length - d)) with
+          | error e => simp [h1, h2, bind, Except.bind] at h
+          | ok y =>
+            simp [h1, h2, bind, Except.bind, pure, Except.pure] at h
+            obtain ⟨rfl, rfl⟩ := h
+            exact ⟨validate_closed h1, validate_closed h2⟩
+
+theorem padToMaxName_closed (n r : Name) (h : padToMaxName n = .ok r) : WfName r := by
+  unfold padToMaxName at h; exact validate_closed h
+
+theorem absSuccLoop_closed (origin : Name) (ho : WfName origin) (name r : Name)
+    (h : absSuccLoop origin name = .ok r) : WfName r := by
+  induction name with
+  | nil => simp [absSuccLoop] at h; exact h ▸ ho
+  | cons lsl suffix ih =>
+    unfold absSuccLoop at h
+    split at h
+    · simp at h; exact h ▸ ho
+    · simp only at h
+      split at h
+      · rename_i nm hext
+        simp at h; subst h
+        split at hext
+        · split at hext
+          · rename_i nm' hv; simp at hext; subst hext; exact validate_closed hv
+          · simp at hext
+        · simp at hext
+      · split at h
+        · exact validate_closed h
+        · exact ih h
+
+theorem successor_closed (n o r : Name) (p : Bool) (hn : WfName n) (ho : WfName o)
+    (h : successor n o p = .ok r) : WfName r := by
+  unfold successor handleRelativity at h
+  split at h
+  · simp at h
+  · simp only at h
+    split at h
+    · simp at h
+    · rename_i nm hnm
+      have hnmwf : WfName nm := by
+        split at hnm
+        · exact derelativize_closed _ _ _ hn hnm
+        · split at hnm
+          · simp at hnm
+          · simp at hnm; exact hnm ▸ hn
+      split at h
+      · simp at h
+      · rename_i r' hr'
+        have hr'wf : WfName r' := by
+          unfold absoluteSuccessor at hr'
+          simp only at hr'
+          split at hr'
+          · rename_i nm2 hpre
+            simp at hr'; subst hr'
+            split at hpre
+            · split at hpre
+              · rename_i x hv; simp at hpre; subst hpre; exact validate_closed hv
+              · simp at hpre
+            · simp at hpre
+          · exact absSuccLoop_closed o ho nm r' hr'
+        split at h
+        · exact relativize_closed _ _ _ hr'wf h
+        · simp at h; exact h ▸ hr'wf
+
+theorem predecessor_closed (n o r : Name) (p : Bool) (hn : WfName n)
+    (h : predecessor n o p = .ok r) : WfName r := by
+  unfold predecessor handleRelativity at h
+  split at h
+  · simp at h
+  · simp only at h
+    split at h
+    · simp at h
+    · rename_i nm hnm
+      split at h
+      · simp at h
+      · rename_i r' hr'
+        have hr'wf : WfName r' := by
+          unfold absolutePredecessor at hr'
+          split at hr'
+          · exact padToMaxName_closed _ _ hr'
+          · split at hr'
+            · simp at hr'
+            · split at hr'
+              · exact parent_closed _ _ hr'
+              · split at hr'
+                · simp at hr'
+                · simp only at hr'
+                  split at hr'
+                  · simp at hr'
+                  · rename_i nm3 hv
+                    split at hr'
+                    · exact padToMaxName_closed _ _ hr'
+                    · simp at hr'; exact hr' ▸ validate_closed hv
+        split at h
+        · exact relativize_closed _ _ _ hr'wf h
+        · simp at h; exact h ▸ hr'wf
+
+/-- non-vacuity for the wire theorems: `www.Example.` is absolute and well formed -/
+example : WfName [[119, 119, 119], [69, 120], []] ∧ isAbs [[119, 119, 119], [69, 120], []] = true := by
+  constructor
+  · refine ⟨?_, ?_, ?_⟩ <;> decide
+  · decide
 
 end C01
